@@ -671,7 +671,18 @@ func (w *WalletManager) signWitnessTx(password []byte, tx *wire.MsgTx, hashType 
 		}
 
 		scriptFlags := txscript.StandardVerifyFlags
-		if forks.EnforceMASSIP0002WarmUp(cacheMeta[txIn.PreviousOutPoint.Hash].Height) {
+		var parentHeight uint64
+		if meta := cacheMeta[txIn.PreviousOutPoint.Hash]; meta != nil {
+			parentHeight = meta.Height
+		} else {
+			// an unmined parent has no block yet: it confirms in the next block at the earliest
+			syncedTo, err := w.SyncedTo()
+			if err != nil {
+				return err
+			}
+			parentHeight = syncedTo + 1
+		}
+		if forks.EnforceMASSIP0002WarmUp(parentHeight) {
 			scriptFlags |= txscript.ScriptMASSip2
 		}
 		// Either it was already signed or we just signed it.
